@@ -264,3 +264,8 @@ func Programs() []diffrun.Program {
 	}
 	return ps
 }
+
+// VerifFiles returns the files of the yield-helper package (three tagged variants).
+func VerifFiles() map[string]string {
+	return map[string]string{"verif/common.go": verifCommon, "verif/y_js.go": verifJS, "verif/y_direct.go": verifDirect, "verif/y_ref.go": verifRef}
+}
